@@ -93,6 +93,7 @@ var specC03WellFormed = Register(&Spec[WellFormed]{
 })
 
 func TestC03_WellFormed(t *testing.T) {
+	longVersions = true
 	specC03WellFormed.Run(t, func(t *rapid.T) WellFormed { return genWellFormedX(t, "w", true) }, 60000, 300000)
 }
 
@@ -238,6 +239,7 @@ var specC03Reject = Register(&Spec[NearMiss]{
 })
 
 func TestC03_Reject(t *testing.T) {
+	longVersions = true
 	specC03Reject.Run(t, genNearMiss, 40000, 200000)
 }
 
@@ -365,11 +367,13 @@ var specC03RoundTrip = Register(&Spec[VersionText]{
 })
 
 func TestC03_RoundTrip(t *testing.T) {
+	longVersions = true
 	specC03RoundTrip.Run(t, genAcceptedCandidate, 100000, 500000)
 }
 
 // native fuzz target (thorough tier): the same oracle on coverage-guided input.
 func FuzzC03_RoundTrip(f *testing.F) {
+	longVersions = true
 	for _, s := range []string{"1.0", "1:2.0-3", "0:1:2", "1-2-", " 1.0~rc1+b1-0ubuntu1\n", "2:0-0", "09azAZ.-+~:-0", "-", "1:-"} {
 		f.Add(s)
 	}
